@@ -151,6 +151,23 @@ pub fn run(scn: &PubSub, ch: &mut Chooser, want_trace: bool) -> RunOut {
     let mut env = PsEnv { scn, tx, sub_sink: vec![None; scn.subs], pub_stream: vec![None; scn.pubs.len()] };
     let mut ex = Exec::new(w.clone(), Box::pin(topic));
     ex.drive(&mut env);
+    // Quiescence: nothing is blocked, nobody holds a wake-up. Under an executor that only
+    // re-polls on wake-up this is the final state, so the reference model is evaluated here.
+    let mut viol = Vec::new();
+    {
+        let mut g = lock(&w);
+        g.end_clock = g.tick();
+        for s in g.sinks.iter_mut() {
+            s.accepted_at_quiescence = s.accepted.len();
+            s.flushed_at_quiescence = s.flushed;
+        }
+        let abandoned = ex.out.spun || ex.out.livelock || ex.out.panicked.is_some();
+        if !abandoned {
+            oracle(scn, &g, &ex.out, &mut viol);
+        }
+        g.end_clock = u64::MAX;
+    }
+    // ... and only then the probe poll for C09
     ex.settle();
     {
         let mut g = lock(&w);
@@ -164,15 +181,11 @@ pub fn run(scn: &PubSub, ch: &mut Chooser, want_trace: bool) -> RunOut {
     drop(ex); // drops the router (if still alive) and with it the mocks
     drop(env);
     let mut g = lock(&w);
-    let mut viol = Vec::new();
     let abandoned = out.spun || out.livelock || out.panicked.is_some();
     common_c09(&out, &g, "pubsub", &mut viol);
     if let Some((m, l)) = &out.panicked {
         let prop = if scn.hostile { "C11" } else if scn.faults { "C08" } else if scn.close { "C16" } else { "C01" };
         viol.push(RViol { prop, clause: format!("pubsub:panic:{}:{}", panics_file(l), mask(m)), msg: format!("router panicked: {m} at {l}") });
-    }
-    if !abandoned {
-        oracle(scn, &g, &out, &mut viol);
     }
     let oh = outcome_hash(&g, &out);
     let rep = ExecReport {
@@ -197,7 +210,21 @@ pub fn mask(m: &str) -> String {
 }
 
 /// C09 clauses common to both routers.
-pub fn common_c09(out: &Outcome, _g: &World, router: &str, viol: &mut Vec<RViol>) {
+pub fn common_c09(out: &Outcome, g: &World, router: &str, viol: &mut Vec<RViol>) {
+    // the differential consequence: under the wake-only executor everything handed to a
+    // healthy sink is also flushed once nothing is blocked any more
+    if out.done.is_none() && !out.spun && !out.livelock && out.panicked.is_none() {
+        for s in &g.sinks {
+            if s.failed.is_none() && s.dropped_at.map_or(true, |d| d >= g.end_clock) && s.flushed_at_quiescence < s.accepted_at_quiescence {
+                viol.push(RViol {
+                    prop: "C09",
+                    clause: format!("{router}:parked-with-unflushed-data"),
+                    msg: format!("the router went to sleep (nothing blocked, no wake-up pending) with {} of {} frames handed to {} not flushed", s.accepted_at_quiescence - s.flushed_at_quiescence, s.accepted_at_quiescence, s.label),
+                });
+                break;
+            }
+        }
+    }
     if out.spun {
         viol.push(RViol { prop: "C09", clause: format!("{router}:spin"), msg: "one router poll exceeded the step budget (it loops without yielding)".into() });
     }
